@@ -70,19 +70,35 @@ class LazyDisk:
         self.seq += 1
         self.jobs.append({"kind": "in", "shmid": shmid, "size": size, "cb": callback, "seq": self.seq})
 
-    def complete(self, i: int, ok: bool) -> dict:
-        job = self.jobs.pop(i)
+    def run_io(self, i: int, ok: bool) -> None:
+        """First half of a job: the real disk/segment work of Disk._page_out/_page_in; the completion callback into the Manager is
+        captured and delivered later (run_cb). This lets a history put a client request between the two halves, as a real disk
+        thread can be pre-empted there."""
+        job = self.jobs[i]
+        if job.get("phase") == "cb":
+            return
         real_root = self.root
         if not ok:  # realistic failure: the spill directory is not writable / the spilled file is gone
             self.root = _Root(os.path.join(self.dir, "does-not-exist"))
+        got: list = []
         try:
             if job["kind"] == "out":
-                disk.Disk._page_out(self, job["shmid"], job["cb"])
+                disk.Disk._page_out(self, job["shmid"], got.append)
             else:
-                disk.Disk._page_in(self, job["shmid"], job["size"], job["cb"])
+                disk.Disk._page_in(self, job["shmid"], job["size"], got.append)
         finally:
             self.root = real_root
+        job["phase"] = "cb"
+        job["result"] = got[0] if got else False
+
+    def run_cb(self, i: int) -> dict:
+        job = self.jobs.pop(i)
+        job["cb"](job["result"])
         return job
+
+    def complete(self, i: int, ok: bool) -> dict:
+        self.run_io(i, ok)
+        return self.run_cb(i)
 
     def atexit(self) -> None:
         shutil.rmtree(self.dir, ignore_errors=True)
@@ -184,8 +200,8 @@ def histories(draw, max_ops: int = 50):
     cap = draw(st.sampled_from([1, 2, 3, 4, 6, 8, 10, 12, 16, 24, 48, 96]))
     n = draw(st.integers(5, max_ops))
     ops = []
-    kinds = ["alloc", "alloc", "alloc", "finish", "finish", "get", "get", "get", "close", "close", "purge", "job_ok", "job_ok", "job_ok",
-             "job_fail", "clock", "alloc_p", "get_p", "free"]
+    kinds = ["alloc", "alloc", "alloc", "finish", "finish", "get", "get", "get", "close", "close", "purge", "purge", "job_ok", "job_ok",
+             "job_ok", "job_io", "job_io", "job_fail", "clock", "alloc_p", "get_p", "free"]
     churn = draw(st.booleans())
     nkeys = len(KEYS)
     if churn:
@@ -211,7 +227,7 @@ def histories(draw, max_ops: int = 50):
             ops.append([k, draw(st.integers(0, 59))])
         elif k == "close":
             ops.append([k, draw(st.integers(0, 59)), draw(st.integers(0, 3))])
-        elif k in ("job_ok", "job_fail"):
+        elif k in ("job_ok", "job_fail", "job_io"):
             ops.append([k, draw(st.integers(0, 5))])
         elif k == "clock":
             ops.append([k, draw(st.sampled_from(["ms", "ms", "min", "16min"]))])
@@ -534,11 +550,16 @@ class Machine:
         jm = self.jobs_model[i]
         key = jm["key"]
         d = self.model.get(key)
+        if self.ldisk.jobs[i].get("phase") == "cb":
+            ok = bool(self.ldisk.jobs[i]["result"])  # the disk half already ran: its outcome stands
         stale = d is None or d["gen"] != jm["gen"] or (jm["kind"] == "out" and d["state"] != "paging_out") or \
             (jm["kind"] == "in" and d["state"] != "paged_in")
         if stale:
             self.stats["stale_jobs"] += 1
-            if self.known_f20:
+            # known finding F20 is about a stale job whose DISK HALF still has to run (it then works on whatever segment carries the
+            # name now). A job whose disk half ran before its dataset went away only has its callback left; on the unchanged code that
+            # callback is harmless, so it is not covered by the finding and runs under the normal invariants.
+            if self.known_f20 and self.ldisk.jobs[i].get("phase") != "cb":
                 # known finding F20: completing this job corrupts accounting; count it, drop the job, keep searching
                 self.f20_hits += 1
                 self.ldisk.jobs.pop(i)
@@ -585,6 +606,23 @@ class Machine:
             self.stats["zombie_after_failed_job"] = self.stats.get("zombie_after_failed_job", 0) + 1
         else:
             self.model.pop(key, None)
+
+    def op_job_io(self, i: int) -> None:
+        """Only the disk/segment half of a pending job; its callback into the Manager stays pending."""
+        if not self.ldisk.jobs:
+            return
+        i = i % len(self.ldisk.jobs)
+        jm = self.jobs_model[i]
+        d = self.model.get(jm["key"])
+        stale = d is None or d["gen"] != jm["gen"] or (jm["kind"] == "out" and d["state"] != "paging_out") or \
+            (jm["kind"] == "in" and d["state"] != "paged_in")
+        if stale and self.known_f20:
+            return  # left to op_job, which drops it
+        try:
+            self.ldisk.run_io(i, True)
+            self.stats["job_split"] = self.stats.get("job_split", 0) + 1
+        except Exception as e:
+            self.breach("C09", "job-raises", f"disk job {jm} raised {type(e).__name__}: {e}")
 
     def op_clock(self, what: str) -> None:
         self.clock.ns += {"ms": 1_000_000, "min": 60 * 10**9, "16min": 16 * 60 * 10**9}[what]
@@ -699,6 +737,8 @@ class Machine:
                 self.op_job(op[1], True)
             elif k == "job_fail":
                 self.op_job(op[1], False)
+            elif k == "job_io":
+                self.op_job_io(op[1])
             elif k == "clock":
                 self.op_clock(op[1])
             elif k == "free":
